@@ -1,4 +1,5 @@
 """C10 -- each node's math/text mode is the one implied by the enclosing structure."""
+import itertools
 from .. import soups, px, contexts, docgrammar
 from ..alphabets import MATH9
 from ..engine import exc_key, exc_detail, ddmin, Result, hyp_run
@@ -202,6 +203,7 @@ MATH_ENVIRONMENTS = ['equation', 'equation*', 'eqnarray', 'eqnarray*', 'align', 
                      'alignat*', 'split']
 TEXT_MACROS = ['text', 'textrm', 'textbf', 'textit', 'textsf', 'texttt', 'textsc', 'textsl',
                'mbox', 'textup', 'textmd']
+BEGIN_END_BLANKS = [('', ''), (' ', ''), ('', ' '), ('\n', '\t')]
 ENV_HOSTS = [('top-level', 'A %s B', False), ('in-group', '{A %s} B', False),
              ('in-text-in-math', '$a \\text{b %s c} d$', False),
              ('in-itemize', '\\begin{itemize}\\item %s\\end{itemize}', False),
@@ -222,10 +224,11 @@ def check_tables(res):
                 not getattr(db.get_environment_spec(name), 'environmentname', ''):
             continue
         arg = '{2}' if name.startswith('alignat') else ''
-        envsrc = '\\begin{%s}%s x \\alpha {y} \\end{%s}' % (name, arg, name)
-        for host, tpl, outer_math in ENV_HOSTS:
+        for (host, tpl, outer_math), (b1, b2) in itertools.product(ENV_HOSTS, BEGIN_END_BLANKS):
             if name == 'split' and not outer_math:
                 continue        # split only exists inside another display-math construct
+            # TeX skips blanks between \begin / \end and the braced name
+            envsrc = '\\begin%s{%s}%s x \\alpha {y} \\end%s{%s} zq' % (b1, name, arg, b2, name)
             src = tpl % envsrc
             res.case()
             case = {'kind': 'table', 'src': src, 'what': 'env:' + name, 'host': host}
@@ -248,6 +251,11 @@ def check_tables(res):
             if args and any(a != outer_math for a in args):
                 res.fail('c10:math-environment-argument-mode', 'arguments of %s in %r record math '
                          'mode %r, the enclosing mode is %r' % (name, src, args, outer_math), case)
+            after = [bool(n.parsing_state.in_math_mode) for n in walk(nl)
+                     if kind(n) == 'chars' and 'zq' in n.chars]
+            if after != [outer_math]:
+                res.fail('c10:mode-after-math-environment', 'text after \\end{%s} in %r records math '
+                         'mode %r, the enclosing mode is %r' % (name, src, after, outer_math), case)
             if bool(env.parsing_state.in_math_mode) != outer_math:
                 res.fail('c10:math-environment-node-mode', '%s node itself in %r records %r'
                          % (name, src, env.parsing_state.in_math_mode), case)
